@@ -217,6 +217,19 @@ func caseDensify(r *lib.Rng, st *genStats) []string {
 		}
 		d = f * diam
 	}
+	if r.Chance(1, 6) {
+		// short geometries with a diagonal longest segment, d above every side of the bounding box
+		// but not above that segment: it must still be subdivided
+		var lo, hi float64
+		n, lo, hi = genDiagGeom(r, st)
+		g = n.Build()
+		lens = allSegLens(g)
+		class = "box_side_to_diagonal"
+		d = lo + (hi-lo)*float64(1+r.Intn(1000))/1000
+		if r.Chance(1, 6) {
+			d = math.Nextafter(lo, hi)
+		}
+	}
 	if d > 0 {
 		// keep the output small enough for exact arithmetic: at most maxInserted new points
 		total := 0.0
@@ -370,6 +383,11 @@ func caseSimplify(r *lib.Rng, st *genStats) []string {
 			}
 		}
 	}
+	if r.Chance(1, 7) {
+		// long sequences (64 vertices and more), features between t and 2t
+		n, t, class = genLongSeq(r, maxLong, st)
+		g = n.Build()
+	}
 	return simplifyCase(r, n, g, class, t)
 }
 
@@ -444,7 +462,8 @@ func caseInterp(r *lib.Rng, st *genStats) []string {
 }
 
 var evenCount int
-var evenMax = 30 // 50 in the thorough tier
+var evenMax = 30  // 50 in the thorough tier
+var maxLong = 110 // 300 in the thorough tier
 
 func caseEven(r *lib.Rng, st *genStats) []string {
 	n := genInterpLine(r, st)
@@ -593,6 +612,7 @@ func main() {
 	if a.Tier == "thorough" {
 		maxInserted = 1500
 		evenMax = 50
+		maxLong = 300
 	}
 	ops := []opGen{
 		{"REV", 2, caseReverse},
@@ -631,7 +651,7 @@ func main() {
 	}
 	js, _ := json.Marshal(map[string]interface{}{"ops": st.Ops, "kinds": st.Kinds, "ctypes": st.CTs,
 		"lattice": st.Lattice, "general_position_floats": st.Floats, "with_repeated_vertices": st.Dups,
-		"closed_lines": st.Closed, "polygons_with_hole": st.Holes, "t_shaped_polygons_with_hole_in_stem": st.Bumps, "concave_shell_fat_hole": st.Gate, "simplify_error_search_hits": st.GateHits, "sibling_collision_candidates": st.Sibling, "sibling_collision_hits": st.SibHits, "rejected_candidates": st.Rejected,
+		"closed_lines": st.Closed, "polygons_with_hole": st.Holes, "t_shaped_polygons_with_hole_in_stem": st.Bumps, "concave_shell_fat_hole": st.Gate, "simplify_error_search_hits": st.GateHits, "sibling_collision_candidates": st.Sibling, "diagonal_box_geometries": st.Diag, "long_sequences": st.Long, "sibling_collision_hits": st.SibHits, "rejected_candidates": st.Rejected,
 		"empty_members": st.EmptyMem})
 	fmt.Fprintf(w, "#GEN\t%s\n", js)
 }
